@@ -26,6 +26,10 @@
    of the batch drain: parse_check, the statement-level folder twin (Model/FoldStmt.exec_tree) and
    the drain twins (Model/ScanProj.select_row / select_batch) are run on the same text and store;
    a different class or position is code 1, a Pos outside the query code 2 (see t3_code below).
+   A case with corigin = 6 (G2) is an ACCEPTED statement text of ANY shape (GROUP BY / aggregates /
+   ORDER BY / LIMIT) that fails while its plan is drained (or a text AggregatePlan.Init rejects),
+   encoded like corigin = 5; the text twin of Model/PipelineS.v with the completion errors of
+   Model/AggErrPos.v (select_stmt_text_stp) is run on the same text and store (see g2_code below).
    A case with corigin = 3 is an accepted statement: its trees (before and after constant
    folding) and statement positions are checked against the provenance invariant of
    Model/ErrPos.v (every Pos is 0 or a token's Pos, token offsets inside the query); a failure
@@ -45,7 +49,8 @@ Record ncase := NCase {
   corigin : nat;          (* 0 constructed by the harness (renderer grid), 1 returned by BuildPlan
                              (parse / check / plan construction), 2 returned while executing,
                              3 no error: accepted statement, provenance of its trees,
-                             4 statement text vs parse_check, 5 failing run vs the evaluator twins *)
+                             4 statement text vs parse_check, 5 failing run vs the evaluator twins,
+                             6 failing run of any SELECT shape vs the text twin *)
   cquery : string;        (* the text passed to BindQuery *)
   cpos : Z;               (* .Pos *)
   cpad : Z;               (* SetPadding *)
@@ -344,8 +349,53 @@ Definition t3_code (c : ncase) : nat :=
   | _ => 1%nat
   end.
 
+(* ---- corigin = 6 (G2): execution errors of ACCEPTED statements of EVERY shape -- GROUP BY /
+   aggregates / ORDER BY / LIMIT -- through the text twin of Model/PipelineS.v with the positions
+   of the completion errors of AggregatePlan.next / batch (Model/AggErrPos.v
+   select_stmt_text_stp).  Fields as for corigin = 5; the third entry of cspos is 1 when
+   BuildPlan accepted the text (the outcomes are those of the two drains) and 0 when BuildPlan
+   itself returned the error (AggregatePlan.Init: both outcomes are that error).  The scan node
+   and its slots are computed by the twin from the text and the store (PipelineS.scan_slots), so
+   narrowed scans are compared like full scans.  codes as for corigin = 5. *)
+From KV Require Model.Storage Model.Pipeline Model.PipelineS Model.AggErrPos Model.Order Corr.C03Stmt.
+
+Fixpoint g2_store (l : list expr) : Storage.store :=
+  match l with
+  | EStr _ k :: EStr _ v :: l' => (k, v) :: g2_store l'
+  | _ => []
+  end.
+
+Definition g2_cmp (built : bool) (r : PipelineS.stres (list Order.row)) (cls : nat) (p : Z) : nat :=
+  match r with
+  | PipelineS.STOom => 99%nat
+  | PipelineS.STOk _ => if built && (cls =? 0)%nat then 0%nat else 1%nat
+  | PipelineS.STRunErr e => if built then t3_cmp (@Value.Err unit e) cls p else 1%nat
+  | PipelineS.STRunPanic => if built && (cls =? 4)%nat then 0%nat else 1%nat
+  | PipelineS.STReject z => if negb built && (cls =? 2)%nat && (p =? z)%Z then 0%nat else 1%nat
+  | PipelineS.STBuildErr e => if negb built then t3_cmp (@Value.Err unit e) cls p else 1%nat
+  | _ => 1%nat
+  end.
+
+Definition g2_run (q : string) (d : Storage.store) (m : Pipeline.tmode) : PipelineS.stres (list Order.row) :=
+  AggErrPos.select_stmt_text_stp prim_fops t3_re Fold.pf_fmt_v C03Stmt.ag64 C03Stmt.q_pint C03Stmt.q_pfloat q d m.
+
+Definition g2_code (c : ncase) : nat :=
+  match cspos c with
+  | [bcls; B; built] =>
+      match t3_spec_code c bcls with
+      | S _ => 2%nat
+      | O =>
+          let d := g2_store (croots c) in
+          let b := (0 <? built)%nat in
+          t3_worst (g2_cmp b (g2_run (cquery c) d Pipeline.MRow) (cerr c) (cpos c))
+                   (g2_cmp b (g2_run (cquery c) d (Pipeline.MBatch B)) bcls (cpad c))
+      end
+  | _ => 1%nat
+  end.
+
 Definition check_ncase (c : ncase) : nat :=
-  if (corigin c =? 5)%nat then t3_code c
+  if (corigin c =? 6)%nat then g2_code c
+  else if (corigin c =? 5)%nat then t3_code c
   else if (corigin c =? 4)%nat then pa_code c
   else if (corigin c =? 3)%nat then prov_code c
   else if negb (trim_in_model (cquery c)) then 0
